@@ -415,6 +415,50 @@ func lemmaTickMonotone(intervalStart uint64, intervalsPerDay uint32, t1, t2 uint
 //@ assumepre os.Remove.underRoot "the WAL file lives in the root directory (C16 concerns bucket paths)"
 //@ exit #removedOnlyIfReplayed: err == nil ==> !needsReplay
 
+// ---------------------------------------------------------------------------------------------
+// C08/C09: WriteRecords groups consecutive rows of one request into write commands, one per (year file, interval slot).
+// pathYear(p): the year of the data file a TimeBucketInfo path names; cmdYear/cmdIndex: typestate of a write command
+// (the year file and interval slot it was created for).
+//@ ghost func pathYear(p str) int
+//@ ghost func cmdYear(c int) int
+//@ ghost func cmdIndex(c int) int
+
+//@ func FullPathToWALKey
+//@ trusted "filepath.Rel(root, path)"
+//@ pure
+
+//@ func (*WALFileType).WriteCommand
+//@ props C08 C09
+//@ ensures #fields: result != nil && result.Index == index && result.Offset == offset && result.RecordType == rt && result.VarRecLen == varRecLen
+//@ marks #slot: cmdIndex(result) == index && cmdYear(result) == pathYear(tbiAbsPath)
+
+//@ func (*WALFileType).QueueWriteCommand
+//@ trusted "hands the command to the WAL goroutine (channel send)"
+//@ modifies none
+
+//@ func formatRecord
+//@ trusted "drops the 8-byte epoch; for variable-length rows appends the row and its interval ticks to buf"
+//@ modifies mem:uint8
+
+//@ func (*@/catalog.Directory).GetSubDirectoryAndAddFile
+//@ trusted "catalog: returns the TimeBucketInfo of the bucket's file for that year, creating the file if needed"
+//@ modifies all
+//@ ensures #year: result1 == nil ==> (result0 != nil && result0.IsRead && result0.Year == year && pathYear(result0.Path) == year)
+
+// Every row joins the open command only if it belongs to that command's year file and slot; otherwise the open
+// command is queued and a new one is started for the row's own year file and slot.
+//@ func (*Writer).WriteRecords
+//@ props C08 C09
+//@ option noimplicit
+//@ assumepre io.TimeToIndex.tf "catalog invariant: a bucket's timeframe is positive"
+//@ assumepre io.IndexToOffset.tf "catalog invariant"
+//@ forget io.TimeToIndex.subday io.TimeToIndex.daily io.IndexToOffset.spec io.IndexToOffset.exact
+//@ requires #tbi: tbi != nil && tbi.IsRead && pathYear(tbi.Path) == tbi.Year
+//@ loop 0 invariant #idx: 0 <= i
+//@ loop 0 invariant #tbi: tbi != nil && tbi.IsRead && pathYear(tbi.Path) == tbi.Year
+//@ loop 0 invariant #openCommand: i >= 1 ==> (cc != nil && cmdIndex(cc) == prevIndex && cmdYear(cc) == prevYear)
+//@ loop 0 step #joinsOwnSlot: (i >= 2 && cc == prev(cc)) ==> (index == cmdIndex(cc) && year == cmdYear(cc))
+
 // C03: a write set whose data file cannot be opened (bucket removed before the crash, file creation not yet durable)
 // must surface as the error kind the start-up cleaner tolerates (wal.ReplayError: the WAL is moved aside and start-up
 // continues); any other kind makes internal/di panic at start-up.
